@@ -170,6 +170,10 @@ func (pd *perRawBitData) appendBitString(bytes []byte, bitsLength uint64, extens
 	}
 
 	if ub > 65535 {
+		if bitsLength < uint64(lb) {
+			err = fmt.Errorf("bitString Length is under lowerbound")
+			return
+		}
 		// X.691 10.9.3.3: the length is a semi-constrained count, the lower bound is not subtracted
 		sizeRange = -1
 		lb = 0
